@@ -67,7 +67,7 @@ CFG = dict(
           "over patterns of <=3 segments from {a,b,:x,:y,*,empty} x {GET,POST,*} against every path of <=3 (thorough: 4) segments over "
           "{a,b,c,empty,':x','*'} with and without leading slash x methods {GET,POST,PUT,'',BOGUS}; every ordered two-route table over "
           "patterns of <=2 segments from {a,:x,:y,*,empty} x {GET,POST,*} against every path of <=3 segments over {a,b,empty,':x'} x "
-          "{GET,PUT,''} (thorough: the larger alphabets); three-route tables over {a,:x,*,empty}<=2 x {GET,*} (quick: 1/40 sample, "
+          "{GET,PUT,''} (thorough: patterns over {a,b,:x,:y,*,empty}, paths over {a,b,c,empty,':x','*'}, all five methods); three-route tables over {a,:x,*,empty}<=2 x {GET,*} (quick: 1/40 sample, "
           "thorough: all); fixed tables with '', '*', no leading slash, '//' and all ten methods; seeded random tables of 1-6 routes "
           "and requests over arbitrary bytes. distinct_nontrivial = distinct case lines (table, batch of <=200 requests)"),
     trusted_base=[HARNESS_TB, EXTRACT_TB,
